@@ -50,6 +50,15 @@ MISSED = {  # seeded change -> what was added to the check after it was missed
  "C12-j": "comb histories that first store the WHOLE comb (a full spine of branch nodes below a prefix)",
  "C13-i": "shrinking bounded by wall-clock (the 257-node ladder was generated and fired, but shrinking its 257 operations ran into the watchdog: INCONCLUSIVE instead of VIOLATION)",
  "C13-j": "the helpers called on an empty trie through a fresh copy of the blank hash",
+ # round 6 (after pre-emptive strengthening from the round's brief)
+ "C02-l": "keys and values held in a SUBCLASS of bytes (hexbytes.HexBytes style), the empty value included: equal to b'' but not identical",
+ "C08-k": "paths held in other Sequence[int] types: deque, UserList, array('B'), memoryview",
+ "C08-l": "'prefix + segment' composed as a caller writes it: plain-tuple (and Nibbles) prefix + the library's own sub-segment object",
+ "C09-l": "key universe k600: 500-700-byte path-like keys that differ near the end (one extension of > 1000 nibbles)",
+ "C11-k": "mark_all_complete lists that name a member twice, among them lists exactly as long as the fog is wide",
+ "C12-k": "a fork: copy.copy of the trie object runs ahead through the next operations while the original is read (also added to the hexary history runner)",
+ "C15-l": "update streams produced by a tree re-opened with from_db",
+ "C18-k": "if_branch_valid asked to confirm an absence (value None) with an invalid key",
 }
 print("| id | change (abridged) | needs | monitor(s) that fired | first run |")
 print("|---|---|---|---|---|")
